@@ -196,3 +196,42 @@ theorem prune_frames_sublist (p : Profile) (q : Str → Bool) (s : Sample) :
   | some l => exact locFrames_pruneLoc_sublist p q l
   | none => exact List.Sublist.refl _
 end PV.Prune
+
+/-! ### frame level, PruneFrom -/
+namespace PV.Prune
+open PV PV.FilterSpec
+
+theorem fromFirst_some_ne {α} (q : α → Bool) (L s : List α) (h : fromFirst q L = some s) : s ≠ [] := by
+  induction L with
+  | nil => simp [fromFirst] at h
+  | cons a r ih =>
+    unfold fromFirst at h
+    split at h
+    · cases h; simp
+    · exact ih h
+
+theorem locFrames_pruneFromLoc_sublist (p : Profile) (q : Str → Bool) (l : Location) :
+    List.Sublist (locFrames (pruneFromLoc p q l).1) (locFrames l) := by
+  unfold pruneFromLoc
+  split
+  · rename_i ls h
+    have hs := fromFirst_suffix _ _ _ h
+    have hn := fromFirst_some_ne _ _ _ h
+    have hne : l.lines ≠ [] := by
+      intro h0; rw [h0] at hs; exact hn (List.suffix_nil.mp hs)
+    rw [locFrames_of_lines_ne hne, locFrames_of_lines_ne (l := { l with lines := ls }) hn]
+    exact hs.sublist.map _
+  · exact List.Sublist.refl _
+
+/-- frames after PruneFrom are, for every sample, a sublist (in order) of the frames before. -/
+theorem pruneFrom_frames_sublist (p : Profile) (q : Str → Bool) (s : Sample) :
+    List.Sublist (frames (pruneFromWith p q) (pruneFromSample p q s)) (frames p s) := by
+  unfold frames
+  apply flatMap_sublist_of _ _ _ (pruneFromSample_suffix p q s).sublist
+  intro id
+  rw [locFramesOf_prunedFrom p (pruneFromWith p q) q rfl id]
+  unfold locFramesOf
+  cases p.findLocation id with
+  | some l => exact locFrames_pruneFromLoc_sublist p q l
+  | none => exact List.Sublist.refl _
+end PV.Prune
